@@ -65,7 +65,8 @@ MeasDom(w) ==
   \o (IF "first" \in MeasKinds THEN <<ms[1].name>> ELSE <<>>)
   \o (IF "second" \in MeasKinds /\ Len(ms) >= 2 THEN <<ms[2].name>> ELSE <<>>)
   \o (IF "bogus" \in MeasKinds THEN <<"no_such_measurement">> ELSE <<>>)
-PatchDom == PickIdx(<< <<>>, <<"pA">>, <<"pA", "pB">>, <<"pB", "pA">>, <<"pbad">> >>, PatchSel, 1)
+\* the sixth entry names one patch file TWICE around another that does not commute with it: every --patch option counts, in order
+PatchDom == PickIdx(<< <<>>, <<"pA">>, <<"pA", "pB">>, <<"pB", "pA">>, <<"pbad">>, <<"pA", "pB", "pA">> >>, PatchSel, 1)
 ConfDom == PickIdx(<< <<>>,
                       <<Conf("maxiter", "3000", "int")>>,
                       <<Conf("maxiter", "3", "int")>>,                                 \* too few iterations: the fit fails
